@@ -218,12 +218,20 @@ def run(prog, rep):
         gg = build_cfg(fn)
         xx = Expander(fn, gg)
         m0 = fn.params[0]
-        outer = [n for n in gg.nodes if n.kind == "for" and isinstance(strip_order_keeping(n.ast.iter)[0], ast.Call)
-                 and unparse(strip_order_keeping(n.ast.iter)[0].func) == "%s.%s" % (m0, src)]
+        def iter_source(n, gg=gg):
+            # the iterable, read through a local that was bound to it just before (`owners = list(self.itersections(...)); for o in owners`)
+            it = strip_order_keeping(n.ast.iter)[0]
+            if isinstance(it, ast.Name):
+                ds = [d for d in reaching_defs(gg, n, it.id) if d.id != n.id]
+                if len(ds) == 1 and ds[0].kind != "entry" and def_value(ds[0], it.id) is not None:
+                    it = strip_order_keeping(def_value(ds[0], it.id))[0]
+            return it
+        outer = [n for n in gg.nodes if n.kind == "for" and isinstance(iter_source(n), ast.Call)
+                 and unparse(iter_source(n).func) == "%s.%s" % (m0, src)]
         rep.check(len(outer) == 1, "TRAV-4", "%s is driven by %s" % (fn.name, src), "ok", "%s does not loop over self.%s(...)" % (fn.name, src), fn.where)
         if len(outer) != 1:
             continue
-        call = strip_order_keeping(outer[0].ast.iter)[0]
+        call = iter_source(outer[0])
         kws = dict((k.arg, unparse(k.value)) for k in call.keywords if k.arg)
         pos = [unparse(a) for a in call.args]
         callee = S.lookup_method(src)
